@@ -512,7 +512,7 @@ class Lime(BlackBoxExplainer):
                 flatten_inputs = tf.reshape(augmented_input, [len(interp_samples),-1])
                 flatten_samples = tf.reshape(perturbed_samples, [len(interp_samples),-1])
 
-                distances = 1.0 - cosine_similarity(flatten_inputs, flatten_samples, axis=1)
+                distances = 1.0 + cosine_similarity(flatten_inputs, flatten_samples, axis=1)
                 similarities = tf.exp(-1.0 * (distances**2) / (kernel_width**2))
 
                 return similarities
